@@ -618,7 +618,9 @@ def main(chk: core.Check) -> int:
     tables = tlock.regenerate(chk)
     chk.extra["lock_table"] = {k: {n: s for n, s in v} for k, v in tables.items()}
     if not getattr(chk, "no_prove", False):
-        chk.prove(["OptunaVerif.Props.C03", "OptunaVerif.Props.C03Cache"])
+        from verif.props import c01_inmem_gen
+        c01_inmem_gen.regenerate(chk)   # Props/C03InMem instantiates the lock theorem at Generated/InMemoryMethods.lean
+        chk.prove(["OptunaVerif.Props.C03", "OptunaVerif.Props.C03Cache", "OptunaVerif.Props.C03InMem"])
     quick = chk.tier == "quick"
     journal_create_study_race(chk)
     journal_param_race(chk)
